@@ -180,10 +180,18 @@ type Sink struct {
 	mu   sync.Mutex
 	buf  bytes.Buffer
 	Fail bool
+	// Gate, when set, makes the next Write park until the channel is closed and
+	// then fail: a send whose error only surfaces after other traffic went by
+	Gate chan struct{}
 }
 
 func (s *Sink) Write(p []byte) (int, error) {
 	s.mu.Lock()
+	if g := s.Gate; g != nil {
+		s.mu.Unlock()
+		<-g
+		return 0, errors.New("verif: send fails late")
+	}
 	defer s.mu.Unlock()
 	if s.Fail {
 		return 0, errors.New("verif: send fails")
